@@ -326,6 +326,32 @@ def rr_rules(ctx, A):
                 dom = any(s['cond'][0] == 'discr' and strip(s['cond'][1])[0] == 'field' and strip(s['cond'][1])[2] == 'name' and lab == 'None'
                           and rr.dominates(tgt, bi) for s in rr.switches() for lab, tgt in s['edges'])
                 st_ok = st_ok and dom
+    if not st_ok:
+        # the same rewrite written field by field: all four fields are stored under the name-is-None test
+        for l, sts in rr.stores().items():
+            fl = {}
+            for (bi, si, kind, payload, span) in sts:
+                pr = (payload.get('place') or {}).get('proj') or [] if kind == 'rv' else []
+                if len(pr) == 2 and pr[0].get('k') == 'Deref' and pr[1].get('k') == 'Field' and pr[1].get('adt') == REGION:
+                    fl.setdefault(pr[1]['name'], []).append((bi, rr.expr_of_rvalue(payload['rv'])))
+            if not {'visibility', 'name', 'doc', 'is_base'} <= set(fl) or any(len(v) != 1 for v in fl.values()):
+                continue
+
+            def under_none(bi):
+                for s_ in rr.switches():
+                    for lab, tgt in s_['edges']:
+                        c_ = s_['cond']
+                        hit = (c_[0] == 'discr' and strip(c_[1])[0] == 'field' and strip(c_[1])[2] == 'name' and lab == 'None') or \
+                              (is_call(c_, 'Option::<T>::is_none') and strip(c_[2][0])[0] == 'field' and strip(c_[2][0])[2] == 'name' and lab is True) or \
+                              (is_call(c_, 'Option::<T>::is_some') and strip(c_[2][0])[0] == 'field' and strip(c_[2][0])[2] == 'name' and lab is False)
+                        if hit and rr.dominates(tgt, bi) and rr.pred(tgt) == [s_['block']]:
+                            return True
+                return False
+            vis, name, doc, isb = fl['visibility'][0], fl['name'][0], fl['doc'][0], fl['is_base'][0]
+            name_ok = name[1][0] == 'agg' and name[1][1].endswith('Option::Some') and size_out is not None and any(x == size_out for x in walk(name[1]))
+            st_detail = 'field-wise: ' + ', '.join('%s := %s' % (k, show(v[0][1])[:50]) for k, v in sorted(fl.items()))
+            st_ok = (vis[1][0] == 'agg' and vis[1][1].endswith('Visibility::Private') and doc[1][0] == 'agg' and doc[1][1].endswith('Option::None') and
+                     isb[1] == ('int', 0, 'bool') and name_ok and all(under_none(x[0]) for x in (vis, name, doc, isb)))
     ctx.ob(['C20', 'C17'], 'R-SLP', 'C20-D2|normal-form', st_ok,
            'an unnamed region is rewritten to {Private, name from the running offset, no doc, not base} only when its name is None: %s' % st_detail, where)
     # E6 first base
@@ -513,15 +539,34 @@ def tdb_rules(ctx, A):
     dsw = [s for s in tdb.switches() if strip(s['cond']) == strip(td['defaultable'])]
     dtrue = [(s['block'], tgt) for s in dsw for lab, tgt in s['edges'] if lab is True]
     dfalse = [(s['block'], tgt) for s in dsw for lab, tgt in s['edges'] if lab is False]
-    g7a = [g for g in gs if g.kind == 'reject' and g.pred[0] == 'is_none' and is_call(g.pred[1], 'get_defaultable_type_path')]
-    g7b = [g for g in gs if g.kind == 'reject' and find_calls(g.pred, 'ItemDefinitionInner::defaultable') and (g.pred[0] == 'un' and g.pred[1] == 'Not')]
+    is7a = lambda g: g.kind == 'reject' and g.pred[0] == 'is_none' and is_call(g.pred[1], 'get_defaultable_type_path')
+    is7b = lambda g: g.kind == 'reject' and bool(find_calls(g.pred, 'ItemDefinitionInner::defaultable')) and (g.pred[0] == 'un' and g.pred[1] == 'Not')
+    g7a = [g for g in gs if is7a(g)]
+    g7b = [g for g in gs if is7b(g)]
+    helper7 = None
+    if not g7a and not g7b:
+        # the whole per-region check may live in a helper whose error is propagated
+        for callee, pg, call in propagated_calls(tdb):
+            ha, hb = [g for g in guards_of(callee) if is7a(g)], [g for g in guards_of(callee) if is7b(g)]
+            if ha or hb:
+                g7a, g7b, helper7 = ha, hb, (callee, pg, call)
     ok7 = len(g7a) == 1 and len(g7b) == 1 and len(dsw) == 1
-    ctx.ob(['C13'], 'R-GUARD', 'G7|defaultable-fields', ok7, 'a defaultable type rejects fields that are not (arrays of) named types and fields whose type is not defaultable', g7a[0].where() if g7a else where)
-    if ok7:
+    ctx.ob(['C13'], 'R-GUARD', 'G7|defaultable-fields', ok7, 'a defaultable type rejects fields that are not (arrays of) named types and fields whose type is not defaultable%s' % (
+        ' (in helper %s)' % short(helper7[0].id) if helper7 else ''), g7a[0].where() if g7a else where)
+    if ok7 and helper7 is None:
         okit, L = covers_each_iteration_exempt(tdb, g7a[0], dfalse)
         sty, src = (loop_source(tdb, L) if L else (None, None))
         over_R = src is not None and any(strip(x) == R for x in walk(src)) and sty and re.match(r"^std::slice::Iter<'_, %s>$" % re.escape(REGION), sty)
         ctx.ob(['C13'], 'R-ITER', 'G7|every-region', bool(okit and over_R), 'the defaultable check visits every region (iterator %s) whenever defaultable is set' % sty, g7a[0].where())
+    elif ok7:
+        callee, pg, call = helper7
+        okit, L = covers_each_iteration(callee, g7a[0])
+        sty, src = (loop_source(callee, L) if L else (None, None))
+        src = subst_args(expand(callee, src), call[2]) if src is not None else None
+        over_R = src is not None and any(strip(x) == R for x in walk(src)) and sty and re.match(r"^std::slice::Iter<'_, %s>$" % re.escape(REGION), sty)
+        called = covers_all_paths(tdb, pg, exempt_edges=dfalse)
+        ctx.ob(['C13'], 'R-ITER', 'G7|every-region', bool(okit and over_R and called),
+               'the defaultable check (helper %s, called on every path to success when defaultable is set: %s) visits every region (iterator %s)' % (short(callee.id), called, sty), g7a[0].where())
     # G8 duplicate method names
     g8 = [g for g in gs if g.kind == 'reject' and (g.pred[0] == 'call' and re.search(SETM('contains'), g.pred[1]))]
     ok8 = False
@@ -578,34 +623,42 @@ def _head(e):
     return short(e[1]) if e[0] == 'call' else show(e)[:60]
 
 
+def _census_fn(ctx, fn, via, depth, emit):
+    """classify every Err-producing branch of `fn`; a propagated error from an in-crate helper that is not one of the expected
+    fallible steps is judged by the helper's own branches (recursively), so that moving checks into a helper changes nothing.
+    Returns the list of (ok, key, what, where)"""
+    out = []
+    for g in guards_of(fn):
+        if g.kind != 'reject':
+            continue
+        label = short(fn.id) if not via else short(via[-1])
+        if g.kinds <= {'err_prop'} and g.pred[0] == 'fails':
+            src = _head(g.pred[1])
+            ok = any(s in src for s in EXPECTED_PROP)
+            if not ok and depth < 3:
+                e_ = g.pred[1]
+                while e_[0] == 'call' and (e_[3].endswith('Context::with_context') or e_[3].endswith('Context::context')):
+                    e_ = e_[2][0]
+                cal = fn.prog.fns.get(e_[1]) if e_[0] == 'call' else None
+                if cal is not None and cal.id != fn.id and cal.raw.get('output', '').startswith('std::result::Result<'):
+                    sub = _census_fn(ctx, cal, via + [cal.id], depth + 1, emit)
+                    if sub and all(o[0] for o in sub):
+                        out.extend(sub)
+                        continue
+            out.append((ok, 'propagated|%s|%s' % (label, src if ok else 'unexpected:' + src[:60]),
+                        'error propagated from %s' % src[:100] if ok else 'a new fallible step can reject a type description: %s' % src[:160], g.where()))
+            continue
+        tags = [t for t, m, _ in EXPECTED_OWN if m(g)]
+        out.append((bool(tags), 'own|%s|%s' % (label, tags[0] if tags else 'unexpected:' + show(g.pred)[:60]),
+                    ('rejection%s implements: ' % (' (in helper %s)' % label if via else '') + [c for t, m, c in EXPECTED_OWN if t == tags[0]][0]) if tags else
+                    'a rejection that no clause of the statement calls for (possible spurious rejection): %s' % show(g.pred)[:200], g.where()))
+    return out
+
+
 def census(ctx, A):
     for fn in (A['TDB'], A['RR']):
-        for g in guards_of(fn):
-            if g.kind != 'reject':
-                continue
-            if g.kinds <= {'err_prop'} and g.pred[0] == 'fails':
-                src = _head(g.pred[1])
-                ok = any(s in src for s in EXPECTED_PROP)
-                if not ok:
-                    # a helper that only checks (returns Result<()>) is judged by its own guards
-                    e_ = g.pred[1]
-                    while e_[0] == 'call' and (e_[3].endswith('Context::with_context') or e_[3].endswith('Context::context')):
-                        e_ = e_[2][0]
-                    cal = fn.prog.fns.get(e_[1]) if e_[0] == 'call' else None
-                    if cal is not None and cal.raw.get('output', '').startswith('std::result::Result<(), '):
-                        sub = [g2 for g2 in guards_of(cal) if g2.kind == 'reject']
-                        if sub and all(g2.pred[0] != 'fails' and any(m(g2) for t, m, _ in EXPECTED_OWN) for g2 in sub):
-                            for g2 in sub:
-                                tag = [t for t, m, _ in EXPECTED_OWN if m(g2)][0]
-                                ctx.ob(['C03', 'C10'], 'R-CENSUS', 'own|%s|%s' % (short(cal.id), tag), True, 'rejection (in helper %s) implements: %s' % (short(cal.id), tag), g2.where())
-                            continue
-                ctx.ob(['C03', 'C10'], 'R-CENSUS', 'propagated|%s|%s' % (short(fn.id), src if ok else 'unexpected:' + src[:60]), ok,
-                       'error propagated from %s' % src[:100] if ok else 'a new fallible step can reject a type description: %s' % src[:160], g.where())
-                continue
-            tags = [t for t, m, _ in EXPECTED_OWN if m(g)]
-            ctx.ob(['C03', 'C10'], 'R-CENSUS', 'own|%s|%s' % (short(fn.id), tags[0] if tags else 'unexpected:' + show(g.pred)[:60]), bool(tags),
-                   ('rejection implements: ' + [c for t, m, c in EXPECTED_OWN if t == tags[0]][0]) if tags else 'a rejection that no clause of the statement calls for (possible spurious rejection): %s' % show(g.pred)[:200],
-                   g.where())
+        for ok, key, what, where in _census_fn(ctx, fn, [], 0, True):
+            ctx.ob(['C03', 'C10'], 'R-CENSUS', key, ok, what, where)
 
 
 # ------------------------------------------------------------------------------------------------
